@@ -314,6 +314,19 @@ def enumerate_scripts(ctx):
     """-> list of dicts: config, template, keys, script text, embedded python."""
     prog = ctx.prog
     f = prog.need_func(CROP + ".gen_cluster_script")
+    # canonical role names: the mapping the template is formatted with is `opts`; the absolute parent directory `full_parent_dir`
+    from ..util import role_rename
+    spl = {k.value.id for c_ in walk_shallow(f.node) if isinstance(c_, ast.Call) and isinstance(c_.func, ast.Attribute) and c_.func.attr == "format" for k in c_.keywords if k.arg is None and isinstance(k.value, ast.Name)}
+    need(len(spl) == 1, "anchor lost: script.format(**<options>) in gen_cluster_script")
+    role_rename(f, spl.pop(), "opts")
+    for n_ in walk_shallow(f.node):
+        if isinstance(n_, ast.Assign) and norm(n_.targets[0]) == "opts":
+            from .shared import dict_literal
+            dl_ = dict_literal(n_.value)
+            if isinstance(dl_, ast.Dict):
+                for k_, v_ in zip(dl_.keys, dl_.values):
+                    if isinstance(k_, ast.Constant) and k_.value == "parent_dir" and isinstance(v_, ast.Name):
+                        role_rename(f, v_.id, "full_parent_dir")
     out = []
     for sched in ("sge", "pbs", "slurm"):
         for mode in ("array", "single"):
